@@ -37,9 +37,9 @@ std::string handle_resolve(const JV &req) {
         int i = 0;
         for (auto &p : c.at("params").a) {
             ParamPattern pp;
-            pp.kind = ParamPattern::Kind::Input;
             pp.name = "p" + std::to_string(i++);
-            pp.ts = tp_of(p);
+            if (p.at("k").as_str() == "scalar") { pp.kind = ParamPattern::Kind::Scalar; pp.scalar = sp_of(p.at("e")); }
+            else { pp.kind = ParamPattern::Kind::Input; pp.ts = tp_of(p); }
             impl.params.push_back(pp);
         }
         impl.rank = operator_dispatch_detail::operator_rank(impl.params);
@@ -58,7 +58,17 @@ std::string handle_resolve(const JV &req) {
         bool first_c = true;
         for (auto &call : req.at("calls").a) {
             std::vector<WiringArg> args;
-            for (auto &s : call.a) { WiringArg a; a.kind = WiringArg::Kind::TimeSeries; a.port = WiringPortRef::null_source(parse_ts(s.as_str())); args.push_back(a); }
+            for (auto &s : call.a) {
+                WiringArg a;
+                const std::string &str = s.as_str();
+                if (str.rfind("SC[", 0) == 0) {     // a scalar argument of the named type
+                    const std::string t = str.substr(3, str.size() - 4);
+                    a.kind = WiringArg::Kind::Scalar;
+                    a.scalar_value = t == "int" ? Value{Int{1}} : t == "bool" ? Value{Bool{true}} : Value{Str{"a"}};
+                    a.scalar_meta = a.scalar_value.schema();
+                } else { a.kind = WiringArg::Kind::TimeSeries; a.port = WiringPortRef::null_source(parse_ts(str)); }
+                args.push_back(a);
+            }
             if (!first_c) out += ',';
             first_c = false;
             try {
